@@ -230,6 +230,16 @@ Definition quotes_by_peer (p : proof) (me : peer) : list quote :=
    (isValid, amountPaid) results, the i-th one about the i-th submitted quote *)
 Inductive chain := ChainErr | ChainOk (res : list (bool * N)).
 
+(* verify_data_payment evaluates the contract call against one block of the chain: the mined state
+   ("latest", alloy's default for eth_call) or the pending state (which also counts transactions that
+   are only in the mempool).  Which one is re-read from evmlib's handler.rs on every run. *)
+Inductive block_tag := BLatest | BPending.
+Definition verify_block_tag : block_tag :=
+  if Consts.pv_verify_payment_at_latest then BLatest else BPending.
+(* what the node's query sees, given the mined and the pending state of the contract *)
+Definition chain_queried (latest pending : chain) : chain :=
+  match verify_block_tag with BLatest => latest | BPending => pending end.
+
 Record env := { e_closest : list peer }.     (* answer of get_closest_k_value_local_peers *)
 
 Inductive err :=
